@@ -139,6 +139,14 @@ pub fn run_op(e: &mut Engine, log: &Log, host: &mut HostState, op: &str) -> Got 
             let v = e.extract_value(&name.replace("@@", &host.uniq)).map_err(|x| x.to_string())?;
             host.held.push(v);
             Ok(None)
+        } else if op == "heap_acct" {
+            // accounting only (workloads with a large live set)
+            let st = e.verif_heap_stats();
+            let mut l = log.lock().unwrap();
+            for (_slots, alloc_count, free) in st {
+                l.push(format!("accounting:{}", if alloc_count == free { "exact".to_string() } else { format!("alloc_count={alloc_count} free={free}") }));
+            }
+            Ok(Some(format!("{:?}", st)))
         } else if op == "heap_stats" {
             // emits, for the value list and the vector list: slots, and whether the accounted free
             // count equals the number of slots actually marked free
